@@ -27,6 +27,8 @@ type C08Params struct {
 	Probe   string       `json:"probe"` // which cross-file probe the world contains
 	// PreUpdate: targets (indices in sorted order) brought up to date before every history, so that compare sees a mix of current and stale rules
 	PreUpdate []int `json:"pre_update,omitempty"`
+	// PreFormat: every history starts from the tree formatted with `format --all`, so that format --check has nothing to report but its lint
+	PreFormat bool `json:"pre_format,omitempty"`
 }
 
 func genC08(t *rapid.T, tier string) (*World, any) {
@@ -77,6 +79,12 @@ func genC08(t *rapid.T, tier string) (*World, any) {
 		w.Put("crs/regex-assembly/9421000.ra", "seven\n")
 		w.Put("crs/regex-assembly/942100.ra.bak", "bak\n")
 		w.Put("crs/regex-assembly/README", "readme\n")
+	}
+	if chance(t, 25, "dotfiles") {
+		// editor / VCS droppings: plain files the walk has to step over
+		w.Put("crs/regex-assembly/.editorconfig", "root = true\n")
+		w.Put("crs/regex-assembly/.942100.ra.swp", "swap\n")
+		w.Put("crs/regex-assembly/include/.gitkeep", "")
 	}
 	// programs; the same stored-expression and definition names are used in different files
 	opts := ProgOpts{Spicy: chance(t, 20, "spicy"), Flags: true, PrefixSufx: true, Blocks: true, Cmdline: true, Defs: true,
@@ -156,6 +164,9 @@ func genC08(t *rapid.T, tier string) (*World, any) {
 	for i := 0; i < no; i++ {
 		perm := simrt.Permutation(n, decisionOf(drawInt(t, 1, 24, "order")))
 		p.Orders = append(p.Orders, perm)
+	}
+	if p.Cmd == "format-check" {
+		p.PreFormat = chance(t, 60, "preformat")
 	}
 	if strings.HasPrefix(p.Cmd, "compare") {
 		for i := range targets {
@@ -254,6 +265,9 @@ func evalC08(sc *Scenario, sim *Sim) ([]Violation, bool, string) {
 	items := walkItems(sb, p.Cmd)
 	restore := func() {
 		sb.Restore(sc.World)
+		if p.PreFormat {
+			sb.Run(Step{Argv: []string{"regex", "format", "--all"}, Cwd: "crs"})
+		}
 		for _, i := range p.PreUpdate {
 			if i < len(items) {
 				sb.Run(Step{Argv: []string{"regex", "update", items[i].Arg}, Cwd: "crs"})
@@ -324,6 +338,7 @@ func evalC08(sc *Scenario, sim *Sim) ([]Violation, bool, string) {
 	}
 	// A: --all
 	restore()
+	startContents := raContents(sb, items)
 	ra := sb.Run(Step{Argv: argvAll(), Cwd: "crs", Plan: plan()})
 	diskA := raContents(sb, items, rulesPath)
 	switch p.Cmd {
@@ -402,7 +417,7 @@ func evalC08(sc *Scenario, sim *Sim) ([]Violation, bool, string) {
 		if anyFail && ra.Exit == 0 {
 			add("all-vs-singles", "exit", "`format --check --all` exits 0 although a single check fails", "")
 		}
-		if d := diffMaps(raContents(sb, items), snapshotOf(sc.World, items)); len(d) > 0 {
+		if d := diffMaps(raContents(sb, items), startContents); len(d) > 0 {
 			add("all-vs-singles", "disk", "`format --check --all` changed files: "+strings.Join(d, " "), "")
 		}
 	}
